@@ -163,6 +163,11 @@ pub fn c14_powf_logic() {
             let y_int = libm::trunc(y.hi()) == y.hi() && libm::trunc(y.lo()) == y.lo();
             if sx < 0 && !y_int {
                 assert!(!spec_valid(r));
+            } else if native() {
+                // replay on the real code
+                let ax = if sx < 0 { -x } else { x };
+                let e = (y * ax.ln()).exp();
+                assert!(same(r, e) || (sx < 0 && same(r, -e)));
             } else {
                 // exactly one ln call on |x|, one multiplication y*ln_ret (either order), one exp call on it
                 assert!(T_LN.n == 1 && T_EXP.n == 1 && T_MUL_TT.n == 1);
